@@ -18,7 +18,7 @@ import (
 // case := (cfg ops impl)   -- see coq/theories/Run/C04_run.v for the wire format
 //       | (5 floor_bits schema)   -- pickSchema: the switch on floor(log2(log2(factor)))
 // Streams: seq (structured, boundary-directed), limits (small bucket limits, resets, timers),
-// exemplars, top (upper end of the float range), malformed (odd configurations and op lists), pickschema, known-subnormal-widen.
+// exemplars, top (upper end of the float range), vec (children of one HistogramVec), malformed (odd configurations and op lists), pickschema, known-subnormal-widen.
 
 func main() { cli.Main("C04", runC04) }
 
@@ -251,17 +251,17 @@ func c04Ops(r *emit.Rng, c c04Cfg, n int, pEx, pWrite, pAdv, pFire int) []c04Op 
 }
 
 type c04Write struct {
-	schema               int32
-	zt                   float64
-	zc, count            uint64
-	sum                  float64
-	created              int64
-	pspans, nspans       [][2]int64
-	pdeltas, ndeltas     []int64
-	pos, neg             [][2]int64
-	exVals               []float64
-	exTs                 []int64
-	timers               []int64
+	schema           int32
+	zt               float64
+	zc, count        uint64
+	sum              float64
+	created          int64
+	pspans, nspans   [][2]int64
+	pdeltas, ndeltas []int64
+	pos, neg         [][2]int64
+	exVals           []float64
+	exTs             []int64
+	timers           []int64
 }
 
 func c04Decode(spans []*dto.BucketSpan, deltas []int64) (sp [][2]int64, pops [][2]int64) {
@@ -335,6 +335,106 @@ type c04Result struct {
 	ws     []c04Write
 }
 
+// c04Exec performs one operation on a real histogram (plain or a vec child) and records what a Write exposes.
+func c04Exec(h *prometheus.VerifC04Hist, o *c04Op, nEx *int, out *c04Result) {
+	switch o.kind {
+	case opObs:
+		h.Observe(o.v)
+	case opObsEx:
+		*nEx++
+		if vals, capacity, enabled := h.ExemplarState(); enabled && o.v == o.v && len(vals) == capacity && capacity > 1 {
+			o.oracle = c04LogOracle(vals, o.v)
+		} else {
+			o.oracle = 0
+		}
+		h.ObserveWithExemplar(o.v, prometheus.Labels{"i": strconv.Itoa(*nEx)})
+	case opAdvance:
+		h.Advance(o.d)
+	case opFire:
+		h.Fire()
+	case opWrite:
+		var m dto.Metric
+		if err := h.Write(&m); err != nil {
+			panic(err)
+		}
+		hp := m.Histogram
+		w := c04Write{schema: hp.GetSchema(), zt: hp.GetZeroThreshold(), zc: hp.GetZeroCount(), count: hp.GetSampleCount(),
+			sum: hp.GetSampleSum(), created: hp.GetCreatedTimestamp().AsTime().Sub(c04Base).Nanoseconds()}
+		w.pspans, w.pos = c04Decode(hp.PositiveSpan, hp.PositiveDelta)
+		w.nspans, w.neg = c04Decode(hp.NegativeSpan, hp.NegativeDelta)
+		w.pdeltas = hp.PositiveDelta
+		w.ndeltas = hp.NegativeDelta
+		for _, e := range hp.Exemplars {
+			w.exVals = append(w.exVals, e.GetValue())
+			w.exTs = append(w.exTs, e.GetTimestamp().AsTime().Sub(c04Base).Nanoseconds())
+		}
+		for _, d := range h.TakeScheduled() {
+			w.timers = append(w.timers, int64(d))
+		}
+		out.ws = append(out.ws, w)
+	}
+}
+
+// c04RunVec drives n children of ONE real HistogramVec with an interleaved operation list
+// (who[i] = child of ops[i], -1 = the shared clock advances). Every child is afterwards compared with
+// its own model instance: its case holds its own operations plus all clock advances, in order.
+func c04RunVec(c c04Cfg, n int, who []int, ops []c04Op) (perOps [][]c04Op, res []c04Result) {
+	perOps = make([][]c04Op, n)
+	res = make([]c04Result, n)
+	done := make(chan bool, 1)
+	go func() {
+		failed := ""
+		defer func() {
+			if e := recover(); e != nil {
+				failed = fmt.Sprint("panic: ", e)
+			}
+			if failed != "" {
+				for k := range res {
+					res[k].failed = true
+					res[k].what = failed
+				}
+			}
+			done <- true
+		}()
+		v := prometheus.VerifC04NewVec(prometheus.HistogramOpts{
+			Name: "h", Help: "h",
+			NativeHistogramBucketFactor:     c.factor,
+			NativeHistogramZeroThreshold:    c.zt,
+			NativeHistogramMaxBucketNumber:  c.maxB,
+			NativeHistogramMinResetDuration: c.minReset,
+			NativeHistogramMaxZeroThreshold: c.maxZT,
+			NativeHistogramMaxExemplars:     c.exMax,
+			NativeHistogramExemplarTTL:      c.exTTL,
+		}, []string{"child"}, c04Base)
+		hs := make([]*prometheus.VerifC04Hist, n)
+		for k := range hs {
+			hs[k] = v.Child(strconv.Itoa(k)) // all children exist before the clock moves
+		}
+		nEx := make([]int, n)
+		for i := range ops {
+			if who[i] < 0 {
+				v.Advance(ops[i].d)
+				for k := range perOps {
+					perOps[k] = append(perOps[k], ops[i])
+				}
+				continue
+			}
+			k := who[i]
+			o := ops[i]
+			c04Exec(hs[k], &o, &nEx[k], &res[k])
+			perOps[k] = append(perOps[k], o)
+		}
+	}()
+	select {
+	case <-done:
+	case <-time.After(20 * time.Second):
+		for k := range res {
+			res[k] = c04Result{failed: true, what: "hang: no answer within 20 s"}
+		}
+	}
+	return
+}
+
 func c04Run(c c04Cfg, ops []c04Op) (res c04Result) {
 	done := make(chan c04Result, 1)
 	go func() {
@@ -358,43 +458,7 @@ func c04Run(c c04Cfg, ops []c04Op) (res c04Result) {
 		}, c04Base)
 		nEx := 0
 		for i := range ops {
-			o := &ops[i]
-			switch o.kind {
-			case opObs:
-				h.Observe(o.v)
-			case opObsEx:
-				nEx++
-				if vals, capacity, enabled := h.ExemplarState(); enabled && o.v == o.v && len(vals) == capacity && capacity > 1 {
-					o.oracle = c04LogOracle(vals, o.v)
-				} else {
-					o.oracle = 0
-				}
-				h.ObserveWithExemplar(o.v, prometheus.Labels{"i": strconv.Itoa(nEx)})
-			case opAdvance:
-				h.Advance(o.d)
-			case opFire:
-				h.Fire()
-			case opWrite:
-				var m dto.Metric
-				if err := h.Write(&m); err != nil {
-					panic(err)
-				}
-				hp := m.Histogram
-				w := c04Write{schema: hp.GetSchema(), zt: hp.GetZeroThreshold(), zc: hp.GetZeroCount(), count: hp.GetSampleCount(),
-					sum: hp.GetSampleSum(), created: hp.GetCreatedTimestamp().AsTime().Sub(c04Base).Nanoseconds()}
-				w.pspans, w.pos = c04Decode(hp.PositiveSpan, hp.PositiveDelta)
-				w.nspans, w.neg = c04Decode(hp.NegativeSpan, hp.NegativeDelta)
-				w.pdeltas = hp.PositiveDelta
-				w.ndeltas = hp.NegativeDelta
-				for _, e := range hp.Exemplars {
-					w.exVals = append(w.exVals, e.GetValue())
-					w.exTs = append(w.exTs, e.GetTimestamp().AsTime().Sub(c04Base).Nanoseconds())
-				}
-				for _, d := range h.TakeScheduled() {
-					w.timers = append(w.timers, int64(d))
-				}
-				out.ws = append(out.ws, w)
-			}
+			c04Exec(h, &ops[i], &nEx, &out)
 		}
 	}()
 	select {
@@ -619,6 +683,50 @@ func runC04(c *cli.Ctx) error {
 		return cfg, append(keep, "top-of-range"), append(ops, c04Op{kind: opWrite})
 	}); err != nil {
 		return err
+	}
+	// vec: 2-3 children of ONE HistogramVec driven by interleaved operations; every child must behave
+	// exactly like a histogram of its own (no cross-talk of populations, exemplars, resets, timers)
+	{
+		w := emit.NewWriter(c.Out, "C04", "vec")
+		rr := r.Fork()
+		var direct []map[string]interface{}
+		for i := 0; i < 90*c.Scale; i++ {
+			cfg, tags := c04Config(rr, rr.Bool())
+			if rr.Chance(2, 3) {
+				cfg.exMax = []int{1, 2, 3, 10, 0}[rr.Intn(5)]
+			}
+			n := 2 + rr.Intn(2)
+			base := c04Ops(rr, cfg, 10+rr.Intn(70), 35, 10, 8, 3)
+			who := make([]int, len(base))
+			for j := range base {
+				switch {
+				case base[j].kind == opAdvance:
+					who[j] = -1
+				case j >= len(base)-1: // the final Write: one per child, appended below
+					who[j] = 0
+				default:
+					who[j] = rr.Intn(n)
+				}
+			}
+			for k := 1; k < n; k++ {
+				base = append(base, c04Op{kind: opWrite})
+				who = append(who, k)
+			}
+			perOps, res := c04RunVec(cfg, n, who, base)
+			for k := 0; k < n; k++ {
+				if res[k].failed {
+					direct = append(direct, map[string]interface{}{"index": w.Len(), "what": res[k].what})
+				}
+				t2, nt := c04Describe(cfg, perOps[k], res[k])
+				w.Add(c04CaseTerm(cfg, perOps[k], res[k]), nt, append(append([]string{fmt.Sprintf("vec-children:%d", n)}, tags...), t2...)...)
+			}
+		}
+		if len(direct) > 0 {
+			w.Extra["direct_failures"] = direct
+		}
+		if err := w.Flush(); err != nil {
+			return err
+		}
 	}
 	// malformed: odd configurations and op lists
 	if err := c04Stream(c, r.Fork(), "malformed", 150*c.Scale, func(r *emit.Rng) (c04Cfg, []string, []c04Op) {
